@@ -85,6 +85,23 @@ def out_of_range(L):
     return [-L / 10, -math.nextafter(0.0, 1.0), L * (1 + 1e-9), 2 * L, float('inf'), float('-inf'), float('nan')]
 
 
+def path_length_upto(p, T):
+    """arc length of the path from 0 to T by the definition of T (cumulative arc-length fractions of the segments),
+    from the segments' own lengths - not through Path.T2t / Path.length"""
+    ls = [g.length() for g in p]
+    tot = sum(ls)
+    if tot == 0:
+        return 0.0
+    acc_ = 0.0
+    for g, l in zip(p, ls):
+        f = l / tot
+        if l > 0 and T <= (acc_ + l) / tot or g is p[-1]:
+            u = (T - acc_ / tot) / f if f > 0 else 0.0
+            return acc_ + g.length(0, min(max(u, 0.0), 1.0))
+        acc_ += l
+    return tot
+
+
 def check_curve(desc, scale, acc, only_s=None, rot=0):
     curve = make_curve(desc, scale, rot)
     kind = 'P' if isinstance(curve, Path) else type(curve).__name__[0]
@@ -148,9 +165,7 @@ def check_curve(desc, scale, acc, only_s=None, rot=0):
             else:
                 # arc length up to T through the path's own T2t (C05 decides that map); the segment
                 # parameter is clamped because T2t may return 1 + eps/fraction at a boundary
-                k, u = ref.T2t(t)
-                u = min(max(u, 0.0), 1.0)
-                st = sum(ref[i].length() for i in range(k)) + ref[k].length(0, u)
+                st = path_length_upto(ref, t)
             tol = max(1e-12, 4096 * math.ulp(L))
             if speed_zero:
                 # C06 only promises 5e-3 relative for length() across a point of zero speed (the
@@ -215,8 +230,7 @@ def check_call_sequences(desc, scale, acc, only=None):
             if not isinstance(fresh, Path):
                 st = fresh.length(0, t)
             else:
-                k, u = fresh.T2t(t)
-                st = sum(fresh[i].length() for i in range(k)) + fresh[k].length(0, min(max(u, 0.0), 1.0))
+                st = path_length_upto(fresh, t)
             tol = (b[1] or 0.0) + max(1e-12, 4096 * math.ulp(L)) * (4 if isinstance(fresh, Path) else 1)
             if not abs(st - b[0]) <= tol:
                 acc.violation('second_call_misses_its_tolerance', sig, case, observed={'t': t, 'length(0,t)': st}, expected=b[0],
@@ -269,8 +283,7 @@ def check_options(desc, scale, acc, only=None):
             if not isinstance(ref, Path):
                 st = ref.length(0, t)
             else:
-                k, u = ref.T2t(t)
-                st = sum(ref[i].length() for i in range(k)) + ref[k].length(0, min(max(u, 0.0), 1.0))
+                st = path_length_upto(ref, t)
             tol = rel_tol * L + max(1e-12, 4096 * math.ulp(L)) * (4 if isinstance(ref, Path) else 1)
             if not abs(st - s_) <= tol:
                 acc.violation('does_not_invert_length', sig, case, observed={'t': t, 'length(0,t)': st}, expected=s_,
@@ -319,8 +332,8 @@ def check_after_mutation(mi, acc):
 
 def tier_params(tier, seed):
     if tier == 'quick':
-        return {'scales': [1e-3, 0.1, 1.0, 1e2, 1e3, 1e4, 3.7e4, 1e5, 1e6], 'rots': [0, 37]}
-    return {'scales': [1e-3, 1e-2, 0.1, 1.0, 10.0, 1e2, 1e3, 1e4, 1e5, 1e6, 3.7e4, 2.0 ** 20, 7.7e5], 'rots': [0, 37, 90, 211]}
+        return {'scales': [1e-12, 1e-9, 1e-3, 0.1, 1.0, 1e2, 1e3, 1e4, 3.7e4, 1e5, 1e6], 'rots': [0, 37]}
+    return {'scales': [1e-12, 1e-9, 1e-6, 1e-3, 1e-2, 0.1, 1.0, 10.0, 1e2, 1e3, 1e4, 1e5, 1e6, 3.7e4, 2.0 ** 20, 7.7e5], 'rots': [0, 37, 90, 211]}
 
 
 def shards(tier, seed):
